@@ -70,6 +70,7 @@ def gen(rng, prop, job):
 
 def make_jobs(prop, tier, seed):
     jobs = plug.std_jobs(prop, tier, seed, "m10", n_quick=14, per_quick=5, schedules=4)
+    jobs.extend(plug.line_jobs(prop, tier, seed))
     for j in range(4 if tier == "quick" else 32):
         jobs.append({"kind": "explore", "side": "worker", "prop": prop, "seed": seed * 15485863 + j, "scenarios": 10, "schedules": 8, "no_driver": True})
     n = 2 if tier == "quick" else 12
